@@ -56,7 +56,12 @@ def run_config(chk, tier, cfgname):
     chk.inst("MarkedArena-constructed-only-by-protocol-checked-methods", "arena::MarkedArena", not bad,
              detail="MarkedArena constructed in %s, reachable from outside mark_debt / finish_marking, whose Some/None "
                     "contract is what the protocol rows cover" % bad)
-    typestate.report_automaton(chk, ["S2", "S7"])
+    # "resurrect returns None exactly for destructed targets" (and is_dead / upgrade likewise) reads the live flag: the
+    # flag must track destruction on every exit of the sweep, the unwinding one out of a panicking destructor included
+    # (seed C07-f: a shared destruct helper clearing the flag after the destructor call in the weakly-kept arm)
+    typestate.apply(chk, "live-flag-tracks-destruction", "sweep_one", only=lambda r: r.pre.get("cursor") == "WW",
+                    aspects=("once", "weak"))
+    typestate.report_automaton(chk, ["S2", "S7", "S6"])
 
 
 def run(chk, tier):
